@@ -108,7 +108,10 @@ func (wd *World) queue(i int) *qh {
 	if i < 0 {
 		i = -i
 	}
-	return wd.qs[i%len(wd.qs)]
+	q := wd.qs[i%len(wd.qs)]
+	q.hb.Lock()
+	q.hb.Unlock()
+	return q
 }
 
 func (wd *World) runOp(op Op) {
@@ -134,6 +137,7 @@ func (wd *World) runOp(op Op) {
 		s.h = h
 		r.end(c)
 		s.AddRet = c.Ret
+		s.publish()
 		s.Submitted = true
 	case opAddAll:
 		q := wd.queue(op.Q)
@@ -151,7 +155,8 @@ func (wd *World) runOp(op Op) {
 			wd.subs[n].AddInv = c.Inv
 			q.addsInvoked++
 		}
-		b := q.addAll(items)
+		b := &bnd{}
+		q.addAll(items, b)
 		r.end(c)
 		b.idx, b.subs, b.inv, b.ret = op.A, op.Subs, c.Inv, c.Ret
 		for _, n := range op.Subs {
@@ -164,12 +169,14 @@ func (wd *World) runOp(op Op) {
 				s.Accepted = true
 			}
 		}
+		b.publish()
 		wd.batches[op.A] = b
 	case opCloseJob:
 		s := wd.subByN(op.A)
 		if s == nil || s.h == nil || s.h.ej == nil {
 			return
 		}
+		s.acquire()
 		c := r.begin(opCloseJob, s.Q, s.N)
 		c.Err = errText(s.h.ej.Close())
 		r.end(c)
@@ -183,7 +190,7 @@ func (wd *World) runOp(op Op) {
 		q.purge()
 		for i, t := range r.purgers {
 			if t == simrt.CurID() {
-				r.purgers = append(r.purgers[:i:i], r.purgers[i+1:]...)
+				r.purgers = removeAt(r.purgers, i)
 				break
 			}
 		}
@@ -214,6 +221,7 @@ func (wd *World) runOp(op Op) {
 		if s.h == nil || s.h.ej == nil {
 			return
 		}
+		s.acquire()
 		switch op.K {
 		case opWait:
 			c := r.begin(opWait, s.Q, s.N)
@@ -256,6 +264,7 @@ func (wd *World) runOp(op Op) {
 			simrt.Block(br.ok)
 		}
 		b := wd.batches[op.A]
+		b.acquire()
 		switch op.K {
 		case opBatchWait:
 			c := r.begin(opBatchWait, -1, -1)
